@@ -38,7 +38,10 @@ def one_object(draw):
         r = gen.r6(draw(gen.logf(1e-6, 1.0)) * L / n / 2.5)
         o = dict(type='wire', n=n, p1=p1, p2=p2, r=r, tag=None, taper=0, tmin=None, tmax=None)
         if kind == 'taper':
-            n = o['n'] = draw(st.integers(2, 24))
+            # (mostly 2..24 segments; a sixth of the tapered wires has up to 160, where the natural shortest segment
+            # L / 2^n is below the rounding error of the wire length)
+            n = o['n'] = draw(st.one_of(st.integers(2, 24), st.integers(2, 24), st.integers(2, 24), st.integers(2, 24),
+                                        st.integers(2, 24), st.integers(25, 160)))
             o['r'] = r = gen.r6(draw(gen.logf(1e-6, 1.0)) * L / n / 2.5)
             o['taper'] = draw(st.integers(1, 3))
             avg = L / n
@@ -83,7 +86,9 @@ def one_object(draw):
 def transforms(draw, case, maxn=6):
     tagsl = [o['_tag'] for o in case['objs']]
     n = draw(st.sampled_from([0, 0, 1, 2, 3, 4, 5, maxn]))
-    keys = draw(st.lists(st.integers(-20, 20), min_size=n, max_size=n, unique=True))
+    # (sort keys may coincide: a third of the cases draws from three values only)
+    keys = draw(st.lists(st.integers(-20, 20) if draw(st.integers(0, 2)) else st.integers(-1, 1), min_size=n, max_size=n,
+                         unique=False))
     xf = []
     for k in keys:
         kind = draw(st.sampled_from(['rotate', 'translate']))
@@ -142,7 +147,10 @@ def check(case):
     except build.Rejected as e:
         msg = str(e)
         if msg.startswith('taper assertion'):
-            return Result(skipped='taper precondition assertion (C20 domain)')
+            # the tapering code stops with an assertion instead of a segmentation or the documented fall-back to
+            # equal segments (the repaired tree never does this for generated wires)
+            return Result(fails=[('taper:assertion', 'the tapering code fails an internal assertion (%s) for %s'
+                                  % (msg, [dict(o_) for o_ in case['objs'] if o_.get('taper')][:2]))], nontrivial=True, labels=labels)
         return Result(skipped='rejected: ' + msg[:40])
     items = rgeo.transformed(case)
     fails = []
@@ -198,7 +206,9 @@ def check(case):
                 # the program tapers the scaled wire with the limits as given
                 lo = max(2.5 * r, o.get('tmin') or 0.0)
                 # coordinates far from the origin carry a rounding error of a few ulps of the coordinate
-                ulp = 8 * np.finfo(float).eps * span
+                # (the segment ends are accumulated: the error grows with the number of segments, and the last segment
+                # takes up what is left to the given end point)
+                ulp = (8 + 2 * n) * np.finfo(float).eps * span
                 if lens.min() < lo * (1 - 1e-6) - ulp:
                     fails.append(('taper:below-min', 'shortest segment %g < max(2.5 r, min) = %g' % (lens.min(), lo)))
                 if tmax is not None and lens.max() > tmax * (1 + 1e-6) + ulp:
@@ -228,7 +238,7 @@ def check(case):
                     try:
                         m2 = build.model(c2)
                         l2 = np.array([s.seg_len for s in m2.geo[0].segments])
-                        if len(l2) == n and not sc and np.abs(l2[::-1] - lens).max() > 1e-9 * lens.max():
+                        if len(l2) == n and not sc and np.abs(l2[::-1] - lens).max() > 1e-9 * lens.max() + ulp:
                             fails.append(('taper:mirror', 'end-2 taper %s is not the mirror of end-1 taper %s' % (lens[:5], l2[::-1][:5])))
                     except build.Rejected:
                         pass
